@@ -73,6 +73,8 @@ def shapes(tier):
         out.append([s1.seg([[A, 'full', t, 2, [SYM_PROPS[0]]], [B, 'full', 3, 1]], 1), s1.seg([[A, 'full', t, 1]], 2)])
     # groups known only through channels, group without properties and without channels
     out.append([s1.seg([[A, 'full', 3, 1], ["/'h'/'x'", 'full', 2, 2], ["/'lonely'", 'nodata', 0, 0, []]], 1)])
+    # raw data one element past the usual 8 KiB / 64 KiB I/O block sizes, followed by more segments
+    out.append([s1.seg([[A, 'full', 10, 8193], [B, 'full', 2, 4097]], 1), s1.seg([[A, 'full', 10, 2], [C, 'full', 3, 1]], 1)])
     if tier == 'thorough':
         from . import c02
         first, rest = c02.seg_configs(True), c02.seg_configs(False)
